@@ -262,3 +262,54 @@ def micro(rng, route=None):
     """Very small scenario for exhaustive exploration (<= 5 hosts)."""
     return synth(rng, "quick", route=route, nsub=rng.randint(1, 3),
                  max_hosts=rng.randint(2, 5))
+
+
+def refused_pivot(rng, route=None):
+    """A foothold subnet with two or three exploitable hosts in front of an
+    inner subnet whose hosts refuse, in their own firewall, the exploitable
+    service from some of the footholds but not from the others: whether an
+    attack on the inner host gets through depends on which foothold is used.
+    """
+    route = route or rng.choice(["yaml", "dict"])
+    srvs = SRV_NAMES[:rng.randint(1, 3)]
+    rng.shuffle(srvs)
+    oss = OS_NAMES[:rng.randint(1, 2)]
+    procs = PROC_NAMES[:1]
+    n_front = rng.randint(2, 3)
+    n_inner = rng.randint(1, 2)
+    s0 = srvs[0]
+    exploits = {"e_0": {"service": s0, "os": None,
+                        "prob": rng.choice([1.0, 1.0, 0.7]),
+                        "cost": rng.choice(COSTS),
+                        "access": rng.choice([1, 2])}}
+    if len(srvs) > 1 and rng.random() < 0.5:
+        exploits["e_1"] = {"service": srvs[1], "os": oss[0], "prob": 1.0,
+                           "cost": rng.choice(COSTS), "access": 2}
+    front = [(1, i) for i in range(n_front)]
+    inner = [(2, i) for i in range(n_inner)]
+    refused = rng.sample(front, rng.randint(1, n_front - 1))
+    ex_srvs = sorted({e["service"] for e in exploits.values()})
+    hosts = {}
+    for a in front + inner:
+        hs = list(dict.fromkeys([s0] + rng.sample(srvs, rng.randint(
+            1, len(srvs)))))
+        fw = {}
+        if a in inner:
+            fw = {src: list(ex_srvs) for src in refused}
+        hosts[a] = {"os": rng.choice(oss), "services": hs,
+                    "processes": rng.sample(procs, rng.randint(0, 1)),
+                    "value": rng.choice([0, 0, 1]), "discovery_value": 0.0,
+                    "firewall": fw}
+    sensitive = {inner[0]: rng.choice([100, 10])}
+    hosts[inner[0]]["value"] = 0.0
+    topo = [[1, 1, 0], [1, 1, 1], [0, 1, 1]]
+    firewall = {(0, 1): list(srvs), (1, 0): [], (1, 2): list(srvs),
+                (2, 1): list(srvs)}
+    return Spec(
+        name=f"synth-{route}", origin=f"synth:{route}",
+        subnets=[1, n_front, n_inner], topology=topo, os=oss, services=srvs,
+        processes=procs, exploits=exploits, privescs={},
+        scan_costs={"service_scan_cost": 1, "os_scan_cost": 1,
+                    "subnet_scan_cost": 1, "process_scan_cost": 1},
+        sensitive=sensitive, hosts=hosts, firewall=firewall,
+        step_limit=None, bounds=None)
